@@ -54,6 +54,8 @@ import XotModel.Lemmas.ParseNsCheck
 import XotModel.Lemmas.ParseErase
 import XotModel.Lemmas.LexFreeBuild
 import XotModel.Lemmas.LexFreeExample
+import XotModel.Lemmas.BytesUtf16
+import XotModel.Lemmas.BytesBait
 
 namespace XotModel.Props
 open XotModel XotModel.Witness
@@ -702,5 +704,281 @@ example : (lexMode .fragment ('\uFEFF' :: ['<', 'a', '/', '>'])).1.map Token.era
   (C02_lexical_layout .fragment
     [{ token := .text ⟨['\uFEFF'], 0⟩ }, { token := .elementStart ⟨[], 0⟩ ⟨['a'], 0⟩ ⟨[], 0⟩ },
      { token := .elementEnd .empty ⟨[], 0⟩ }] (by decide)).1
+
+end XotModel.Props
+
+/-! # ================================================================================================
+    # BYTES (branch wt-bytes): `Xot::parse_bytes` — "supplied as bytes in a declared encoding"
+    # ================================================================================================
+
+  Model: Model/Bytes.lean (`xmlDeclaration` = xot's own `encoding::xml_declaration`, statement by
+  statement; `detectHead` = xhtmlchardet on the 5-byte head; `forLabel`, the decoders and the BOM
+  sniffing of encoding_rs: external crates modelled as written / as specified), tied to the real
+  code by the `bytes` suite.  Encoders (`encodeUtf8`, `encodeUtf16`) are the specification side.
+
+    C02_declaration_reader        bytes that SPELL a rendered declaration (`LDecl`: any quotes, white
+                                  space around `=`, optional standalone) within the first 1024 bytes —
+                                  ASCII / UTF-8, UTF-16 or UCS-4 code units in either byte order,
+                                  with or without byte order mark — followed by anything: the reader
+                                  answers the label, `none` when there is no `encoding`
+    C02_declaration_reader_utf8 / _utf16   the two concrete forms
+    C02_declaration_reader_none   no `<?xml` at the start of the ASCII bytes: `none`
+    C02_bytes_utf8                UTF-8: with byte order mark (any text); without, declared `UTF-8` /
+                                  no label / unknown label; `decodeBytes (encode t) = some t`
+    C02_encoding_bait             UTF-8 without declaration, `encoding=` / `charset=` bait anywhere
+    C02_bytes_utf16               UTF-16LE / BE with byte order mark (any text, any declaration)
+    C02_bytes_utf16_nobom         … without byte order mark, declared `UTF-16` (`<?` pattern)
+    C02_bytes_latin               declared iso-8859-1 / latin1 / windows-1252 / us-ascii / …
+    C02_bytes_document            bytes that decode to the text of a well-formed spelling parse to
+                                  exactly that document (with C02_lexical_prolog); _utf8 / _utf16 /
+                                  _latin instances
+    C02_pi_lookalike_false        the remaining defect of the reader (closed counterexample)
+-/
+
+namespace XotModel.Props
+open XotModel XotModel.Witness XotModel.Bytes
+
+/-- C02_declaration_reader: the bytes `pre` spell (`Spells`: one byte per character in order; NUL and
+    bytes ≥ 0x80 anywhere in between, e.g. a byte order mark or the zero bytes of UTF-16 / UCS-4) a
+    declaration rendered in ANY `LDecl` layout and lie within the first 1024 bytes; whatever follows,
+    `xml_declaration` answers the `encoding` label, `none` when the declaration has none. -/
+theorem C02_declaration_reader (d : LDecl) (hok : d.ok = true) (pre tail : Bytes)
+    (hs : Spells pre d.render) (hlen : pre.length ≤ 1024) :
+    xmlDeclaration (pre ++ tail) = d.encoding :=
+  xmlDeclaration_spelled d hok pre tail hs hlen
+
+/-- … in the ASCII-compatible single-byte / UTF-8 form, with or without the UTF-8 byte order mark. -/
+theorem C02_declaration_reader_utf8 (d : LDecl) (hok : d.ok = true) (bom : Bool) (tail : Bytes)
+    (hlen : (if bom then 3 else 0) + d.render.length ≤ 1024) :
+    xmlDeclaration ((if bom then bom8 else []) ++ encodeUtf8 d.render ++ tail) = d.encoding := by
+  have hasc := render_ascii d hok
+  refine xmlDeclaration_spelled d hok _ tail
+    (Spells.silent_append _ (by cases bom <;> simp [bom8]) (spells_utf8 _ hasc)) ?_
+  rw [List.length_append, length_encodeUtf8_ascii _ (fun c hc => (hasc c hc).2)]
+  cases bom <;> simpa [bom8] using hlen
+
+/-- … as UTF-16 code units in either byte order, with or without the matching byte order mark. -/
+theorem C02_declaration_reader_utf16 (d : LDecl) (hok : d.ok = true) (be bom : Bool) (tail : Bytes)
+    (hlen : (if bom then 2 else 0) + 2 * d.render.length ≤ 1024) :
+    xmlDeclaration ((if bom then bom16 be else []) ++ encodeUtf16 be d.render ++ tail) = d.encoding := by
+  have hasc := render_ascii d hok
+  refine xmlDeclaration_spelled d hok _ tail
+    (Spells.silent_append _ (by cases bom <;> cases be <;> simp [bom16]) (spells_utf16 be _ hasc)) ?_
+  rw [List.length_append, length_encodeUtf16_ascii be _ (fun c hc => (hasc c hc).2)]
+  cases bom <;> cases be <;> simpa [bom16] using hlen
+
+/-- No declaration: the ASCII bytes among the first 1024 (up to the first `>`) do not begin `<?xml`. -/
+theorem C02_declaration_reader_none (data : Bytes)
+    (h : (['<', '?', 'x', 'm', 'l'].isPrefixOf (collectAscii (data.take 1024))) = false) :
+    xmlDeclaration data = none :=
+  xmlDeclaration_none data h
+
+/-- The layout used in the examples: `<?xml version="1.0" encoding ='latin1' standalone="yes"?>` with
+    a blank before and a TAB after the `=` of `encoding`, single quotes. -/
+def exDeclLatin : LDecl :=
+  { encoding := some ['l', 'a', 't', 'i', 'n', '1'], eEq := { before := [' '], after := ['\t'], single := true },
+    standalone := some true }
+
+example : exDeclLatin.ok = true ∧ exDeclLatin.render.length ≤ 1024 := by decide
+/-- direct evaluation of the model: single-byte form followed by a non-ASCII byte … -/
+example : xmlDeclaration (asciiBytes exDeclLatin.render ++ [0xE9]) = some ['l', 'a', 't', 'i', 'n', '1'] := by decide
+/-- … UTF-16LE code units behind a byte order mark … -/
+example : xmlDeclaration (bom16 false ++ encodeUtf16 false exDeclLatin.render) = some ['l', 'a', 't', 'i', 'n', '1'] := by
+  decide
+/-- … no `encoding`: none; no declaration: none. -/
+example : xmlDeclaration (asciiBytes ({ standalone := some false } : LDecl).render ++ [0x3C, 0x61, 0x2F, 0x3E]) = none := by
+  decide
+example : xmlDeclaration [0x3C, 0x61, 0x20, 0x65, 0x6E, 0x63, 0x6F, 0x64, 0x69, 0x6E, 0x67, 0x3D, 0x27, 0x78, 0x27, 0x2F, 0x3E] = none := by
+  decide
+
+/-- The limit of the reader (finding C02:decode-long-declaration-beyond-1024-differs-from-the-text):
+    1100 blanks before `encoding` push the end of the declaration beyond byte 1024 and the label is
+    not read, although the declaration is well formed. -/
+def exDeclLong : LDecl := { exDeclLatin with wEnc := List.replicate 1100 ' ' }
+example : exDeclLong.ok = true := by decide +kernel
+example : xmlDeclaration (asciiBytes exDeclLong.render) = none := by decide +kernel
+
+/-- C02_bytes_utf8: (1) behind the UTF-8 byte order mark EVERY text comes back, the mark removed;
+    (2) without the mark, a text that starts with a declaration — labelled with any label `for_label`
+    maps to UTF-8 (`UTF-8`, `utf8`, …) or does not know, or without label — comes back. -/
+theorem C02_bytes_utf8 :
+    (∀ t : Str, decodeBytes (bom8 ++ encodeUtf8 t) = some t) ∧
+    (∀ (d : LDecl) (body : Str), d.ok = true → d.render.length ≤ 1024 →
+      (∀ L, d.encoding = some L → (forLabel (normalise L)).getD .utf8 = .utf8) →
+      decodeBytes (encodeUtf8 (d.render ++ body)) = some (d.render ++ body)) :=
+  ⟨decodeBytes_bom8, fun d body hok hlen hl => decodeBytes_utf8_declared d hok hlen hl body⟩
+
+/-- The labels of the suite meet the label hypothesis. -/
+example : ∀ L ∈ [['U', 'T', 'F', '-', '8'], ['u', 't', 'f', '-', '8'], ['u', 't', 'f', '8'], ['U', 'T', 'F', '8'],
+    ['x', '-', 'u', 'n', 'k', 'n', 'o', 'w', 'n', '-', 'z', 'z'], ['U', 'T', 'F', '-', '7']],
+    (forLabel (normalise L)).getD .utf8 = .utf8 := by decide
+
+/-- C02_encoding_bait: UTF-8 bytes WITHOUT declaration (with or without byte order mark) decode as
+    UTF-8 whatever `encoding=` / `charset=` text they contain (/repo 72a40b0).  "Without declaration"
+    as the reader sees it: the ASCII characters of the text up to the first `>` do not begin `<?xml`
+    (`hasDeclLookalike`; `C02_pi_lookalike_false` shows the hypothesis cannot be dropped). -/
+theorem C02_encoding_bait (t : Str) (h : hasDeclLookalike t = false) :
+    decodeBytes (encodeUtf8 t) = some (stripBom t) :=
+  decodeBytes_utf8_undeclared t h
+
+/-- … in particular every text that begins with `<` and an ASCII character other than `?`. -/
+theorem C02_encoding_bait_tag (c : Char) (r : Str) (h0 : 0 < c.toNat) (h1 : c.toNat < 0x80) (hq : c ≠ '?') :
+    decodeBytes (encodeUtf8 ('<' :: c :: r)) = some ('<' :: c :: r) :=
+  decodeBytes_utf8_undeclared _ (noLookalike_of_lt c r h0 h1 hq)
+
+/-- `<!-- encoding="latin1" --><a>é</a>` and `<?t charset='utf-16'?><a>é</a>`: not lookalikes. -/
+example : hasDeclLookalike (['<', '!', '-', '-', ' ', 'e', 'n', 'c', 'o', 'd', 'i', 'n', 'g', '=', '"', 'l', 'a', 't', 'i', 'n', '1',
+    '"', ' ', '-', '-', '>', '<', 'a', '>', 'é', '<', '/', 'a', '>']) = false := by decide
+example : hasDeclLookalike (['<', '?', 't', ' ', 'c', 'h', 'a', 'r', 's', 'e', 't', '=', '\'', 'u', 't', 'f', '-', '1', '6', '\'',
+    '?', '>', '<', 'a', '>', 'é', '<', '/', 'a', '>']) = false := by decide
+
+/-- The defect that is left (finding C02:decode-pi-target-lookalike-differs-from-the-text): the reader
+    skips non-ASCII bytes wherever they stand, so the UTF-8 text `<?éxml encoding="latin1"?>é` — a
+    processing instruction, not a declaration — is decoded as windows-1252. -/
+theorem C02_pi_lookalike_false :
+    decodeBytes (encodeUtf8 ['<', '?', 'é', 'x', 'm', 'l', ' ', 'e', 'n', 'c', 'o', 'd', 'i', 'n', 'g', '=', '"', 'l', 'a', 't',
+      'i', 'n', '1', '"', '?', '>', 'é']) =
+      some ['<', '?', 'Ã', '©', 'x', 'm', 'l', ' ', 'e', 'n', 'c', 'o', 'd', 'i', 'n', 'g', '=', '"', 'l', 'a', 't',
+        'i', 'n', '1', '"', '?', '>', 'Ã', '©'] := by decide
+
+/-- C02_bytes_utf16: behind the UTF-16 byte order mark of either byte order EVERY text comes back
+    (declared `UTF-16`, declared anything else, or not declared at all: `Encoding::decode` sniffs the
+    mark before it looks at the label). -/
+theorem C02_bytes_utf16 (be : Bool) (t : Str) : decodeBytes (bom16 be ++ encodeUtf16 be t) = some t :=
+  decodeBytes_bom16 be t
+
+/-- C02_bytes_utf16_nobom: UTF-16 WITHOUT byte order mark, the text starting with a declaration whose
+    label is `UTF-16` / `utf-16` (`label16_utf16`; generally any label that `for_label` maps to the
+    UTF-16 of this byte order after `normalise` and `endianify`): the detector's `<?` pattern gives the
+    byte order and the text comes back. -/
+theorem C02_bytes_utf16_nobom (be : Bool) (d : LDecl) (hok : d.ok = true) (hlen : 2 * d.render.length ≤ 1024)
+    (L : Str) (hL : d.encoding = some L) (hlabel : forLabel (label16 be L) = some (enc16 be)) (body : Str) :
+    decodeBytes (encodeUtf16 be (d.render ++ body)) = some (d.render ++ body) :=
+  decodeBytes_utf16_declared be d hok hlen L hL hlabel body
+
+example (be : Bool) : forLabel (label16 be ['U', 'T', 'F', '-', '1', '6']) = some (enc16 be) := (label16_utf16 be).1
+
+/-- C02_bytes_latin: a text that starts with a declaration labelled iso-8859-1 / latin1 / windows-1252 /
+    cp1252 / us-ascii / … (any label `for_label` maps to windows-1252), the declaration in ASCII and the
+    rest ANY bytes: it decodes to the declaration followed by those bytes read through the
+    windows-1252 table (`win1252`: ASCII and 0xA0..0xFF are the code point itself = ISO-8859-1;
+    0x80..0x9F by the table).  A text is "within the code page" iff it is `body.map win1252`. -/
+theorem C02_bytes_latin (d : LDecl) (hok : d.ok = true) (hlen : d.render.length ≤ 1024) (L : Str)
+    (hL : d.encoding = some L) (hlabel : forLabel (normalise L) = some .windows1252) (body : Bytes) :
+    decodeBytes (asciiBytes d.render ++ body) = some (d.render ++ body.map win1252) :=
+  decodeBytes_latin d hok hlen L hL hlabel body
+
+example : ∀ L ∈ [['I', 'S', 'O', '-', '8', '8', '5', '9', '-', '1'], ['i', 's', 'o', '-', '8', '8', '5', '9', '-', '1'],
+    ['l', 'a', 't', 'i', 'n', '1'], ['w', 'i', 'n', 'd', 'o', 'w', 's', '-', '1', '2', '5', '2'], ['c', 'p', '1', '2', '5', '2'],
+    ['U', 'S', '-', 'A', 'S', 'C', 'I', 'I'], ['u', 's', '-', 'a', 's', 'c', 'i', 'i'], ['a', 's', 'c', 'i', 'i']],
+    forLabel (normalise L) = some .windows1252 := by decide
+example : [0x41, 0xE9, 0x80, 0x9F, 0xFF].map win1252 = ['A', 'é', '€', 'Ÿ', 'ÿ'] := by decide
+/-- direct evaluation: `…encoding ='latin1'…?>` + `<a>` E9 80 `</a>` -/
+example : decodeBytes (asciiBytes exDeclLatin.render ++ [0x3C, 0x61, 0x3E, 0xE9, 0x80, 0x3C, 0x2F, 0x61, 0x3E]) =
+    some (exDeclLatin.render ++ ['<', 'a', '>', 'é', '€', '<', '/', 'a', '>']) := by decide
+
+/-- C02_bytes_document: bytes that `decode` turns into the text of a whole document — any layout of a
+    well-formed spelling, XML declaration or not (`LDoc`) — parse, through `parse_bytes`, to exactly
+    the document the spelling denotes. -/
+theorem C02_bytes_document {env : Env} (h : EnvBaseNs env) (sns : List NSNode) (hw : WellNsDoc sns)
+    (htop : AbstractTopNs (NSNode.denote.denoteList baseScope sns)) (d : LDoc)
+    (hl : d.items.map (Token.erase ∘ LToken.token) = (NSNode.tokens.tokensList sns).map Token.erase)
+    (hok : d.ok = true) (hver : ∀ x, d.decl = some x → x.minor = ['0'])
+    (bs : Bytes) (hdec : decodeBytes bs = some d.render) :
+    ∃ p, Bytes.parseBytes .document env bs = some (.ok p) ∧
+      decodeNs p.env p.tree.kids = some (NSNode.denote.denoteList baseScope sns) := by
+  obtain ⟨p, hp, hd⟩ := C02_lexical_prolog h sns hw htop d hl hok hver
+  exact ⟨p, by rw [Bytes.parseBytes, hdec, Option.map_some, hp], hd⟩
+
+/-- … as UTF-16 in either byte order behind its byte order mark, or as UTF-8 behind its mark: every
+    document (whatever its declaration says). -/
+theorem C02_bytes_document_bom {env : Env} (h : EnvBaseNs env) (sns : List NSNode) (hw : WellNsDoc sns)
+    (htop : AbstractTopNs (NSNode.denote.denoteList baseScope sns)) (d : LDoc)
+    (hl : d.items.map (Token.erase ∘ LToken.token) = (NSNode.tokens.tokensList sns).map Token.erase)
+    (hok : d.ok = true) (hver : ∀ x, d.decl = some x → x.minor = ['0'])
+    (bs : Bytes) (hbs : bs = bom8 ++ encodeUtf8 d.render ∨ ∃ be, bs = bom16 be ++ encodeUtf16 be d.render) :
+    ∃ p, Bytes.parseBytes .document env bs = some (.ok p) ∧
+      decodeNs p.env p.tree.kids = some (NSNode.denote.denoteList baseScope sns) := by
+  refine C02_bytes_document h sns hw htop d hl hok hver bs ?_
+  rcases hbs with rfl | ⟨be, rfl⟩
+  · exact decodeBytes_bom8 _
+  · exact decodeBytes_bom16 be _
+
+/-- … as UTF-8 without byte order mark, the document starting with its declaration (label UTF-8,
+    none, or unknown to `for_label`). -/
+theorem C02_bytes_document_utf8 {env : Env} (h : EnvBaseNs env) (sns : List NSNode) (hw : WellNsDoc sns)
+    (htop : AbstractTopNs (NSNode.denote.denoteList baseScope sns)) (d : LDoc)
+    (hl : d.items.map (Token.erase ∘ LToken.token) = (NSNode.tokens.tokensList sns).map Token.erase)
+    (hok : d.ok = true) (hver : ∀ x, d.decl = some x → x.minor = ['0'])
+    (x : LDecl) (hx : d.decl = some x) (hbom : d.bom = false) (hlen : x.render.length ≤ 1024)
+    (hlabel : ∀ L, x.encoding = some L → (forLabel (normalise L)).getD .utf8 = .utf8) :
+    ∃ p, Bytes.parseBytes .document env (encodeUtf8 d.render) = some (.ok p) ∧
+      decodeNs p.env p.tree.kids = some (NSNode.denote.denoteList baseScope sns) := by
+  refine C02_bytes_document h sns hw htop d hl hok hver _ ?_
+  have hxok : x.ok = true := by
+    simp only [LDoc.ok, hx, Bool.and_eq_true] at hok
+    exact hok.1.1
+  have hr : d.render = x.render ++ (renderL d.items ++ d.trail) := by
+    simp [LDoc.render, LDoc.declText, hx, hbom]
+  rw [hr]
+  exact decodeBytes_utf8_declared x hxok hlen hlabel _
+
+/-- … as UTF-8 without declaration and without byte order mark (with the mark: `C02_bytes_document_bom`),
+    under the reader's notion of "no declaration" (`C02_encoding_bait`).  `hfirst`: the text does not
+    begin with U+FEFF (it begins with white space or `<`). -/
+theorem C02_bytes_document_utf8_undeclared {env : Env} (h : EnvBaseNs env) (sns : List NSNode) (hw : WellNsDoc sns)
+    (htop : AbstractTopNs (NSNode.denote.denoteList baseScope sns)) (d : LDoc)
+    (hl : d.items.map (Token.erase ∘ LToken.token) = (NSNode.tokens.tokensList sns).map Token.erase)
+    (hok : d.ok = true) (hdecl : d.decl = none) (hfirst : d.render.head? ≠ some '\uFEFF')
+    (hno : hasDeclLookalike d.render = false) :
+    ∃ p, Bytes.parseBytes .document env (encodeUtf8 d.render) = some (.ok p) ∧
+      decodeNs p.env p.tree.kids = some (NSNode.denote.denoteList baseScope sns) := by
+  have hdec := decodeBytes_utf8_undeclared d.render hno
+  have hstrip : stripBom d.render = d.render := by
+    cases hr : d.render with
+    | nil => rfl
+    | cons c r =>
+      have hne : c ≠ '\uFEFF' := by
+        intro e; subst e; rw [hr] at hfirst; exact hfirst rfl
+      simp [stripBom, hne]
+  rw [hstrip] at hdec
+  exact C02_bytes_document h sns hw htop d hl hok (fun x hx => by simp [hdecl] at hx) _ hdec
+
+/-- … in a single-byte encoding: the declaration (label mapped to windows-1252) in ASCII, the rest of
+    the text = the remaining bytes through the windows-1252 table. -/
+theorem C02_bytes_document_latin {env : Env} (h : EnvBaseNs env) (sns : List NSNode) (hw : WellNsDoc sns)
+    (htop : AbstractTopNs (NSNode.denote.denoteList baseScope sns)) (d : LDoc)
+    (hl : d.items.map (Token.erase ∘ LToken.token) = (NSNode.tokens.tokensList sns).map Token.erase)
+    (hok : d.ok = true) (hver : ∀ x, d.decl = some x → x.minor = ['0'])
+    (x : LDecl) (hx : d.decl = some x) (hbom : d.bom = false) (hlen : x.render.length ≤ 1024)
+    (L : Str) (hL : x.encoding = some L) (hlabel : forLabel (normalise L) = some .windows1252)
+    (body : Bytes) (hbody : body.map win1252 = renderL d.items ++ d.trail) :
+    ∃ p, Bytes.parseBytes .document env (asciiBytes x.render ++ body) = some (.ok p) ∧
+      decodeNs p.env p.tree.kids = some (NSNode.denote.denoteList baseScope sns) := by
+  refine C02_bytes_document h sns hw htop d hl hok hver _ ?_
+  have hxok : x.ok = true := by
+    simp only [LDoc.ok, hx, Bool.and_eq_true] at hok
+    exact hok.1.1
+  have hr : d.render = x.render ++ (renderL d.items ++ d.trail) := by
+    simp [LDoc.render, LDoc.declText, hx, hbom]
+  rw [hr, ← hbody]
+  exact decodeBytes_latin x hxok hlen L hL hlabel body
+
+/-- Non-vacuity: the document of the C02_lexical_prolog example (`exDoc`: byte order mark, declaration
+    `version = '1.0' encoding="UTF-8" ?`, comment, namespaced element), written as UTF-16BE behind its
+    byte order mark, parses through `parse_bytes` to that document. -/
+example : ∃ p, Bytes.parseBytes .document Env.fresh (bom16 true ++ encodeUtf16 true exDoc.render) = some (.ok p) ∧
+    decodeNs p.env p.tree.kids = some
+      [.comment ['c'],
+       .elem ['u'] ['a'] [(['p'], ['u'])] [(([], ['k']), ['v', '&'])] [.elem [] ['b'] [] [] [], .text ['t']]] :=
+  C02_bytes_document_bom C02_envBaseNs_fresh exSns (wellNsDocB_sound _ (by decide))
+    ⟨rfl, fun d hd => by
+      rw [show NSNode.denote.denoteList baseScope exSns =
+        [.comment ['c'],
+         .elem ['u'] ['a'] [(['p'], ['u'])] [(([], ['k']), ['v', '&'])] [.elem [] ['b'] [] [] [], .text ['t']]]
+        from rfl] at hd
+      simp only [List.mem_cons, List.not_mem_nil, or_false] at hd
+      rcases hd with rfl | rfl <;> rfl⟩
+    exDoc (by decide) (by decide) (fun x hx => by cases hx; rfl) _ (Or.inr ⟨true, rfl⟩)
 
 end XotModel.Props
